@@ -296,3 +296,50 @@ def save_replay(pid, seed, idx, lines, note):
 
 def hx(b):
     return bytes(b).hex() if len(b) else "-"
+
+
+# ---------------------------------------------------------------- state graphs (spec -> impl)
+
+def dump_graph(work, module, cfg=None):
+    """Run TLC with -dump dot,actionlabels; returns (init_node, edges) with
+    edges = list of (src, dst, label)."""
+    scratch = _spec_scratch(work, "graph")
+    gpath = os.path.join(scratch, "graph")
+    cmd = _tlc_cmd(scratch, "2g", 1, ["-config", (cfg or module) + ".cfg", "-dump", "dot,actionlabels", gpath,
+                                      module + ".tla"])
+    rc, out = sh(cmd, cwd=scratch, timeout=600, check=False)
+    if "Model checking completed. No error has been found." not in out:
+        raise Broken("graph dump of %s failed:\n%s" % (module, out[-2000:]))
+    txt = open(gpath + ".dot").read()
+    edges, nodes, init = [], [], None
+    for m in re.finditer(r'^(-?\d+) -> (-?\d+) \[label="((?:[^"\\]|\\.)*)"', txt, re.M):
+        edges.append((m.group(1), m.group(2), m.group(3).replace('\\"', '"')))
+    for m in re.finditer(r'^(-?\d+) \[label="((?:[^"\\]|\\.)*)"(.*)$', txt, re.M):
+        nodes.append(m.group(1))
+        if "style = filled" in m.group(3) and init is None:
+            init = m.group(1)
+    return init, edges, len(set(nodes))
+
+
+def edge_cover(init, edges):
+    """Call sequences (lists of labels) covering every edge: shortest path from
+    the initial state to the edge's source, then the edge."""
+    from collections import deque
+    adj = {}
+    for s, d, l in edges:
+        adj.setdefault(s, []).append((d, l))
+    path = {init: []}
+    dq = deque([init])
+    while dq:
+        u = dq.popleft()
+        for d, l in adj.get(u, []):
+            if d not in path:
+                path[d] = path[u] + [l]
+                dq.append(d)
+    seqs, seen = [], set()
+    for s, d, l in edges:
+        if (s, d, l) in seen or s not in path:
+            continue
+        seen.add((s, d, l))
+        seqs.append(path[s] + [l])
+    return seqs
